@@ -10,4 +10,7 @@ import ThriftVerif.Lib.ResolveLemmas.NodeFacts
 import ThriftVerif.Lib.ResolveLemmas.GoodFile
 import ThriftVerif.Lib.ResolveLemmas.Prog
 import ThriftVerif.Lib.ResolveLemmas.Unique
+import ThriftVerif.Lib.ResolveLemmas.Const
+import ThriftVerif.Lib.ResolveLemmas.Used
+import ThriftVerif.Lib.ResolveLemmas.Deref
 /-! Helper lemmas of C05 (model `Lib/Resolve.lean`, specification `Lib/ResolveSpec.lean`). -/
